@@ -13,7 +13,7 @@
    and by the correspondence of the extracted writer model with the library.  Proved below: the
    statements do NOT hold for the pinned tree (five witnesses, each a defect with a patch or a
    finding). *)
-From CAres.Wire Require Import Cursor Name Record Parse Escape Escape_proofs RefDecode Name_ref Write Roundtrip Write_proofs Write_name Write_host Write_name2 Write_pos.
+From CAres.Wire Require Import Cursor Name Record Parse Escape Escape_proofs RefDecode Name_ref Write Roundtrip Write_proofs Write_name Write_host Write_name2 Write_pos Write_boundary.
 From CAres.Gen Require Import Consts.
 Local Open Scope Z_scope.
 
@@ -81,6 +81,31 @@ Theorem C03_name_roundtrip_partial : forall (validate_hostname : bool) b pre out
       dns_name_parse fuel c true false = Ok (escape_name labels, set_off c (Z.of_nat (length out + length more))).
 Proof. exact name_roundtrip. Qed.
 Print Assumptions C03_name_roundtrip_partial.
+
+(* COMPRESSION ONLY AT REAL LABEL BOUNDARIES (pinned and fixed tree, ANY presentation text with any
+   escapes): when ares_dns_name_write succeeds after ares_nameoffset_find returned a registered name
+   as a proper suffix of the text, the text is  prefix "." suffix  where the prefix tokenises
+   completely - the dot in front of the suffix is an UNESCAPED separator, never the second character
+   of "\." and never preceded by an odd run of backslashes; the tokens of the whole name are the
+   tokens of the prefix, a separator, the tokens of the suffix *)
+Theorem C03_suffix_match_at_label_boundary : forall wv base b ol validate_hostname name b' nl' on idx,
+  wv_strip_dangling_escape wv = false ->
+  name_write wv base b (Some ol) validate_hostname name = Ok (b', nl') ->
+  nameoffset_find ol (firstn 511 name) = Some (on, idx) ->
+  slen on <> slen (firstn 511 name) ->
+  exists prefix tp,
+    firstn 511 name = prefix ++ 46%N :: on /\
+    tokens prefix = Some tp /\
+    forall ton, tokens on = Some ton -> tokens (firstn 511 name) = Some (tp ++ TDot :: ton).
+Proof. exact suffix_match_at_label_boundary. Qed.
+Print Assumptions C03_suffix_match_at_label_boundary.
+
+(* a writer that drops an odd trailing backslash of the prefix in front of a compression target
+   (not in any tree; variant wstrip) writes "john\.smith.ex.com" after "smith.ex.com" as "john" +
+   pointer: the write succeeds and parse (write r) differs from r *)
+Theorem C03_suffix_match_refuted_if_escape_stripped : roundtrip_broken wstrip fixed_tree rec_escdot = true.
+Proof. exact suffix_match_refuted_if_escape_stripped. Qed.
+Print Assumptions C03_suffix_match_refuted_if_escape_stripped.
 
 (* pinned tree: a frame written by ares_dns_write_buf_tcp() into an EMPTY buffer already has its
    compression pointers off by the two octets of the length prefix
